@@ -169,6 +169,9 @@ def program_case(draw):
     action = draw(st.sampled_from(["ack", "nack", "reject", "reschedule", "force_retry"]))
     job = {"id": "p0", "actor": "a_plain", "queue": "q0", "retries": 0, "store_result": True,
            "attempts": [{"k": "eager", "action": action, "program": prog, "sleep": 0.0}, {"k": "ret", "v": None, "sleep": 0.0}]}
+    if draw(st.integers(0, 2)) == 0:
+        # in a `finally:` the actor tries a second terminal action on the handle it has just used
+        job["attempts"][0]["then"] = draw(st.sampled_from(["ack", "nack", "reject", "reschedule", "retry", "force_retry"]))
     if action == "reschedule" and draw(st.booleans()):
         job["defer_by"] = 5.0
         job["iterations"] = 1
@@ -233,6 +236,15 @@ def run_program(case: dict) -> Outcome:
     e0 = ex[0]
     if e0.after_eager_marker:
         out.v("ran-after-eager", "the actor body continued after the eager response")
+    second = [c for c in e0.callbacks if c[0].startswith("second-action")]
+    if any(c[0] == "second-action-accepted" for c in second):
+        out.v("action-after-eager-accepted", f"after the eager {job['attempts'][0]['action']} a second action "
+              f"({job['attempts'][0].get('then')}) on the same handle was accepted (single-use handle)")
+    if second:
+        terminal = [ev for ev in tr.spy.for_id("p0", ("ack", "nack", "reject", "requeue")) if ev.step <= (ex[1].step0 if len(ex) > 1 else 10**12)]
+        if len(terminal) > 1:
+            out.v("second-broker-call", f"the first delivery caused {[ev.op for ev in terminal]}: exactly one terminal action may reach the broker")
+        out.cls("second-action-attempted")
     # expected order: callbacks in registration order, the result store at the position of the latest set_* call
     expected = []
     last_set = None
